@@ -217,9 +217,9 @@ class C18(Property):
         'inputs are not modified and repeated calls reproduce (histories): oracle only — the functional model cannot express aliasing',
         'UncertainQuantity molalities (allclose unwraps them, units.py:524-527): magnitudes only, by correspondence + oracle; the propagated '
         'uncertainty of the result is not part of the property and not checked',
-        'allclose on arrays of DIFFERENT lengths (numpy broadcasting in abs(a-b), zip truncation of d and lim) and on nested lists: not '
-        'reachable from ionic_strength, not modelled; the modelled shapes are scalar, equal-length arrays (array atol), scalar vs array, '
-        'flat lists, list vs scalar',
+        'allclose on nested lists, on arrays of more than one dimension and with a list-valued atol: not modelled (numbers and 1-d arrays in '
+        'every broadcast combination, flat lists and list-vs-number are modelled: allcloseB / allcloseList, theorem allclose_broadcast_spec); '
+        'the control flow of its array branch is hand-modelled behind the text guard allclose_array_branch_guard',
         'values of the physical constants: read from the installed quantities, not derived',
     )
     anchors = (('chempy/electrolytes.py', 'ionic_strength'), ('chempy/units.py', 'allclose'),
